@@ -272,6 +272,10 @@ def shard(p):
         # several expressions in one query string: values and descriptions are those of the expressions evaluated alone, in order
         multi.stage(acc, d, rng.sample([q for q, t in queries[:n_generated] if "{" not in q], min(n_generated, 300)) + multi.REFUSED + ["(%s) * 2" % x for x in multi.REFUSED[:6]],
                     rng, 400, PID, p["kind"], kmax=3, descs=True)
+        # two or three queries whose result iterators are alive at the same time, stepped in turn
+        ipool = [q for q, t in queries[:n_generated] if "{" not in q][:200]
+        ipool += ["(%s) (%s)" % (a_, b_) for a_, b_ in zip(ipool[:60], ipool[60:120])]
+        multi.interleave_stage(acc, d, ipool, rng, 150, PID, p["kind"])
         first = {}
         for pos, ((qi, flag), rep) in enumerate(zip(schedule, reps)):
             text, tree = queries[qi]
